@@ -11,7 +11,7 @@ from ..core import Sub
 PROP = {
     "id": "C05",
     "level": "exploration",
-    "technique": "exhaustive enumeration of all 2^n presence masks (n<=10 quick, n<=14 thorough) x 4 run-length track kinds + Hypothesis run-length masks up to 400 frames in multi-track blocks; oracle: independent segment parser on the written bytes, decode under two poisoned allocators; missing frames as any NaN bit pattern; coupled arrays in different dtypes",
+    "technique": "exhaustive enumeration of all 2^n presence masks (n<=10 quick, n<=14 thorough) x 4 run-length track kinds + Hypothesis run-length masks up to 400 frames in multi-track blocks; oracle: independent segment parser on the written bytes, decode under two poisoned allocators; missing frames as any NaN bit pattern; coupled arrays in different dtypes; enumerated: gaps on 2^k frame numbers, long runs in all dtypes, a block replaced through a second Tdf object and re-read through the first, two decodes overlapping in time (the stream hands over to a second thread inside a read() call)",
     "level_text": ("Exploration with an exhaustive sub-domain: for each of the four run-length coded track kinds every presence mask "
                    "over n frames is enumerated completely for small n (reported as exhaustive for that sub-domain); larger n and "
                    "multi-track blocks are sampled with masks built from run lengths. The written segment table is parsed by an "
